@@ -48,10 +48,17 @@ Theorem C15_halfplanes_compact : forall (F : Type) (O : Ops F) (X : list (V4 F))
 Proof. exact @halfplanes_compact. Qed.
 
 (** every point returned by [intersect_halfplanes] is the intersection of two rows i < j that
-    no third row puts outside; fewer than 3n points are returned *)
+    no third row puts outside; at most n(n-1)/2 points are returned (one row per pair, /repo f6c3926) *)
 Theorem C15_intersect_halfplanes_sound : forall (F : Type) (O : Ops F) (hs : list (HP F)) (pts : list (V2 F)),
-  intersect_halfplanes hs = Ok pts -> Forall (is_vertex hs) pts /\ (length pts < 3 * length hs)%nat.
+  intersect_halfplanes hs = Ok pts -> Forall (is_vertex hs) pts /\ (length pts < hp_cap (length hs))%nat.
 Proof. exact @intersect_halfplanes_sound. Qed.
+
+(** with one buffer row per pair of halfplanes (/repo f6c3926, finding F28) the function is total for every
+    arithmetic: no out-of-bounds write, the final assertion cannot fail (before the fix: Err EAssert on
+    corpus/C15/f27_identical_buffer_assert.json) *)
+Theorem C15_intersect_halfplanes_total : forall (F : Type) (O : Ops F) (hs : list (HP F)),
+  exists pts, intersect_halfplanes hs = Ok pts /\ (length pts <= npairs hs)%nat.
+Proof. exact @intersect_halfplanes_total. Qed.
 
 (** ... and every such intersection is returned: no vertex of the arrangement is lost (in the
     exact model; binary64 loses some, known finding F26) *)
@@ -323,6 +330,7 @@ Print Assumptions C15_poly_cert_nonvacuous.
 Print Assumptions C15_sep_cert_nonvacuous.
 Print Assumptions C15_halfplanes_compact.
 Print Assumptions C15_intersect_halfplanes_sound.
+Print Assumptions C15_intersect_halfplanes_total.
 Print Assumptions C15_intersect_halfplanes_complete.
 Print Assumptions C15_polygon_vertices_from_arrangement.
 Print Assumptions C15_parallel_face_positive.
